@@ -50,6 +50,10 @@ impl SegmentIndexWriter {
             .len();
 
         index_size_bytes.store(actual_index_size, Ordering::Release);
+        #[cfg(feature = "iggy_verif")]
+        if actual_index_size == 0 {
+            crate::verif::fs_event("create", file_path, 0);
+        }
 
         trace!("Opened index file for writing: {file_path}, size: {actual_index_size}");
 
@@ -84,6 +88,8 @@ impl SegmentIndexWriter {
                     format!("Failed to flush index file: {}. {error}", self.file_path)
                 })
                 .map_err(|_| IggyError::CannotSaveIndexToSegment)?;
+            #[cfg(feature = "iggy_verif")]
+            crate::verif::fs_event("append", &self.file_path, INDEX_SIZE);
         }
         if self.fsync {
             let _ = self.fsync().await;
